@@ -491,7 +491,10 @@ func c04P2PKEOnPath(r *ev.Run, g *rng.R, caseID string, caseIdx int) {
 	r.Eval(1)
 	addrH := p2pkeswarm.Addr[wireAddr]{ID: idH, Addr: wireAddr{1}}
 	scenario := caseIdx % 3
-	if scenario == 2 {
+	if caseIdx < 0 {
+		scenario = 3
+	}
+	if scenario == 2 || scenario == 3 {
 		// e4: H initiates to V; M sees H's InitHello on the wire, lifts its cleartext claim {key, timestamp, signature} into an
 		// InitHello of its own (own ephemeral, fresh transport address), never proves anything, and sends data.
 		addrV := p2pkeswarm.Addr[wireAddr]{ID: p2pkeswarm.DefaultFingerprinter(&kV.Pub), Addr: wireAddr{0}}
@@ -516,6 +519,71 @@ func c04P2PKEOnPath(r *ev.Run, g *rng.R, caseID string, caseIdx int) {
 		}
 		m := newRawPeer(kM, true)
 		fresh := wireAddr{2 + g.Intn(3)}
+		if scenario == 3 {
+			// e5: from a fresh transport address M first repeats H's InitHello verbatim (V's new channel for that address sees H's
+			// key claimed, answers, and never gets a proof), then runs a complete, honest handshake under its own key from the same
+			// address and sends data. Whatever V delivers of it must be attributed to M's key, never to H's.
+			reps := 1 + (-caseIdx)%3
+			for i := 0; i < reps; i++ {
+				net.inject(fresh, wireAddr{0}, hello)
+				time.Sleep(time.Duration(1+g.Intn(4)) * time.Millisecond)
+			}
+			net.take()
+			done := false
+			for attempt := 0; attempt < 4 && !done; attempt++ {
+				m = newRawPeer(kM, true)
+				net.inject(fresh, wireAddr{0}, m.InitHelloOwn(time.Now()))
+				for w := 0; w < 150 && !done; w++ {
+					time.Sleep(time.Millisecond)
+					for _, wm := range net.take() {
+						if wm.Src.N == 0 && wm.Dst.N == fresh.N {
+							if c, _ := msgCounter(wm.Bytes); c == 1 {
+								if _, err := m.ReadRespHello(wm.Bytes); err == nil {
+									done = true
+								}
+							}
+						}
+					}
+				}
+			}
+			if !done {
+				r.NonTrivial("p2pke-on-path/replayed-hello-then-own-handshake/own-hello-unanswered")
+				return
+			}
+			net.inject(fresh, wireAddr{0}, m.InitDone(advSign(kM, advPurposeCB, m.cbAfter)))
+			time.Sleep(5 * time.Millisecond)
+			for i := 0; i < 3; i++ {
+				net.inject(fresh, wireAddr{0}, m.NextData([]byte(fmt.Sprintf("from-M-own-handshake-%d", i))))
+			}
+			time.Sleep(30 * time.Millisecond)
+			mu.Lock()
+			defer mu.Unlock()
+			n := 0
+			for _, x := range atV {
+				if strings.HasPrefix(x.payload, "LOOKUP-MISMATCH") {
+					r.Violate("C04/lookup-in-handler-wrong-key/p2pke(wire)", caseID, "the key looked up in the handler for the source is not the key the message was attributed to", map[string]any{"delivered": x.payload, "looked_up": x.id.String(), "id_H": idH.String(), "id_M": idM.String()})
+					return
+				}
+				if strings.HasPrefix(x.payload, "from-M") {
+					n++
+					if x.id != idM {
+						sig := "attributed-to-other-key/p2pke(wire)"
+						if x.id == idH {
+							sig = "attributed-to-victim-key/p2pke(wire)"
+						}
+						r.Violate("C04/"+sig, caseID, "a peer that proved key M in a complete handshake had its data attributed to another key: before its own handshake it had repeated an InitHello of H from the same transport address", map[string]any{"delivered": x.payload, "attributed_to": x.id.String(), "id_H": idH.String(), "id_M": idM.String(), "hello_repeats": reps})
+						return
+					}
+				}
+			}
+			if n > 0 {
+				r.NonTrivial(fmt.Sprintf("p2pke-on-path/replayed-hello-then-own-handshake/reps=%d", reps))
+			} else {
+				r.Count("c04_replayed_hello_own_data_not_delivered", 1)
+				r.NonTrivial("p2pke-on-path/replayed-hello-then-own-handshake/nothing-delivered")
+			}
+			return
+		}
 		net.inject(fresh, wireAddr{0}, m.InitHelloWith(extractInitHelloPayload(hello)))
 		answered := false
 		for w := 0; w < 300 && !answered; w++ {
@@ -955,6 +1023,14 @@ func runC04(r *ev.Run) {
 		caseID := fmt.Sprintf("p2pke-on-path-%d", i)
 		if r.Mine(idx) && r.Want(caseID) {
 			c04P2PKEOnPath(r, cg, caseID, i)
+		}
+	}
+	for i := 0; i < pick(r, 3, 12); i++ {
+		idx++
+		cg := g.Fork()
+		caseID := fmt.Sprintf("p2pke-replayed-hello-%d", i)
+		if r.Mine(idx) && r.Want(caseID) {
+			c04P2PKEOnPath(r, cg, caseID, -1-i)
 		}
 	}
 	idx++
